@@ -177,6 +177,10 @@ func (e *Exec) staticMax(t *smt.Term) (uint64, bool) {
 
 // feasibleMax finds a bound M with "len > M" infeasible on this path.
 func (e *Exec) feasibleMax(ln *smt.Term) (int, bool) {
+	if e.reason == "" {
+		e.reason = "feasmax"
+		defer func() { e.reason = "" }()
+	}
 	if ln.IsConst() {
 		return int(ln.Val), true
 	}
